@@ -367,6 +367,24 @@ const U7_HALF_SCALE: u8 = 1 << 6;
 /// If the user mashes dowm more notes than this, some information may be lost
 const HELD_DOWN_NOTE_BUFFER_LEN: usize = 32;
 
+/// Verification hook: the constants of this module as compiled
+#[cfg(feature = "verif-hooks")]
+pub fn verif_consts() -> [(&'static str, u32); 11] {
+    [
+        ("CC_MOD_WHEEL", CC_MOD_WHEEL as u32),
+        ("CC_VOLUME", CC_VOLUME as u32),
+        ("CC_VCF_CUTOFF", CC_VCF_CUTOFF as u32),
+        ("CC_VCF_RESONANCE", CC_VCF_RESONANCE as u32),
+        ("CC_SUSTAIN_SWITCH", CC_SUSTAIN_SWITCH as u32),
+        ("CC_PORTAMENTO_SWITCH", CC_PORTAMENTO_SWITCH as u32),
+        ("CC_PORTAMENTO_TIME", CC_PORTAMENTO_TIME as u32),
+        ("CC_ALL_CONTROLLERS_OFF", CC_ALL_CONTROLLERS_OFF as u32),
+        ("CC_ALL_NOTES_OFF", CC_ALL_NOTES_OFF as u32),
+        ("U7_HALF_SCALE", U7_HALF_SCALE as u32),
+        ("HELD_DOWN_NOTE_BUFFER_LEN", HELD_DOWN_NOTE_BUFFER_LEN as u32),
+    ]
+}
+
 #[cfg(test)]
 mod tests {
     use super::*;
